@@ -171,6 +171,15 @@ def metric_magnitudes(ctx):
                 pts = [g.Point(o[0] + k * size * 2.5, o[1] + k * size * 2.5) for k in (0, 1, 2, 3)]
                 cr = complex(go.crossratio(*pts))
                 ctx.ensure("crossratio-of-closely-spaced-points-far-from-the-origin==4/3", abs(cr - 4 / 3) < 1e-4, witness=dict(w, got=str(cr)))
+    # integer coordinates: the brackets are integers whose products do not fit int64
+    for k in (1, 10, 1000, 3000):
+        pts = [g.Point(1 * k, 2 * k), g.Point(2 * k, 5 * k), g.Point(3 * k, 8 * k), g.Point(4 * k, 11 * k)]
+        try:
+            cr = complex(go.crossratio(*pts))
+            ok = abs(cr - 4 / 3) < 1e-9
+        except ex.GeometryException as err:
+            ok, cr = False, type(err).__name__
+        ctx.ensure("crossratio-of-integer-points==4/3", ok, witness=dict(scale=k, got=str(cr)), prop=("C11",))
     # perpendicular / parallel decisions: exact cases, clearly wrong cases and cases 1e-5 rad off, near and far from the origin
     for o in origins2:
         for th in (0.0, 0.3, 1.2, 2.5):
@@ -256,6 +265,31 @@ def transformation_classes_dtypes(ctx):
             ok = False
             w["exception"] = "%s: %s" % (type(e).__name__, str(e)[:100])
         ctx.ensure("composition:class-and-value-for-every-single/collection-mix", ok, witness=w)
+    # a regular projective map may have a zero in its corner (it sends the origin to infinity): composition must not normalise by that entry
+    sp = Transformation(np.array([[1.0, 0, 0], [0, 1, 0], [1, 0, 1]]))
+    for tt in (translation(-1, 0), translation(-1, 3), rotation(0.4) * translation(-1, 0)):
+        w = dict(right=np.asarray(tt.array).round(3).tolist())
+        try:
+            st = sp * tt
+            xs = [g.Point(2, 1), g.Point(-3, 0.5), g.Point(0, 0)]
+            ok = np.all(np.isfinite(np.asarray(st.array, dtype=float))) and all((st * x) == (sp * (tt * x)) for x in xs) and all(st.inverse() * (st * x) == x for x in xs)
+            l = g.Line(1, 2, -3)
+            ok = ok and (st * l) == (sp * (tt * l))
+        except Exception as e:
+            ok = False
+            w["exception"] = "%s: %s" % (type(e).__name__, str(e)[:100])
+        ctx.ensure("composition-of-maps-whose-product-has-a-zero-corner-entry", ok, witness=w)
+    # identities are fresh objects: editing one in place must not change the next one
+    from geometer.transformation import identity
+    for dim in (2, 3):
+        t0 = Transformation(np.eye(dim + 1) * 2.0 + np.diag(np.arange(dim + 1.0)))
+        e0 = t0 ** 0
+        e0[0, 1] = 4.0
+        i1 = identity(dim)
+        i1[1, 0] = -3.0
+        x = g.Point(*([1.0, 2.0, 3.0][:dim]))
+        ok = (t0 ** 0) * x == x and identity(dim) * x == x and np.array_equal(np.asarray(identity(dim).array, dtype=float), np.eye(dim + 1)) and np.array_equal(np.asarray((t0 ** 0).array, dtype=float), np.eye(dim + 1))
+        ctx.ensure("identity-and-t**0-are-fresh-objects", ok, witness=dict(dim=dim))
     for nb in (63, 64, 70):
         mats = np.array([[[1, k % 3, k - 30], [0, 1 + (k % 2), 2 * k - 50], [0, 0, 1]] for k in range(nb)], dtype=np.int64)
         tcol = TransformationCollection(mats)
